@@ -98,6 +98,10 @@ def run_check(check_id, tier, seed, log=print):
     mod = importlib.import_module("checks." + check_id.lower())
     root = os.environ.get("EDGEGRAPH_ROOT", "/repo")
     configs = mod.configs(tier)
+    partial = os.environ.get("VERIF_DEBUG_CONFIGS")
+    if partial:
+        # development aid (sizing one configuration): a partial run is never reported as complete (exit 2)
+        configs = [configs[int(i)] for i in partial.split(",")]
     budget = getattr(mod, "TIME_BUDGET", {"quick": 240, "thorough": 1500})[tier]
     total = Stats()
     exhausted_all = True
@@ -112,7 +116,7 @@ def run_check(check_id, tier, seed, log=print):
     spec = ("harness.runner", "make_path_fn", {"check": check_id, "configs": configs, "validate_mod": vm, "seed": seed})
     st, exhausted = explore_parallel(spec, time_limit=budget, log=log,
                                      initial=[(i,) for i in range(len(configs) - 1, -1, -1)] if len(configs) > 1 else None)
-    exhausted_all = exhausted
+    exhausted_all = exhausted and not partial
     total.merge(st)
     for ci, params in enumerate(configs):
         per_config.append({"params": params, "paths": st.reached.get(f"cfg:{ci}", 0)})
